@@ -13,6 +13,10 @@ import (
 )
 
 type Eff struct {
+	ifaceVia  map[*FuncInfo]string // callee reached only through dispatch on this interface type
+	callees   map[*FuncInfo]bool // module functions possibly called (static, interface implementations, closures by signature)
+	extCalls  map[string]bool    // external functions called (pkgpath.Name)
+	directGlobalWrites map[string]bool
 	regions   map[string]bool
 	assigned  map[*types.Var]bool
 	refVars   map[*types.Var]bool // reference parameters written through
@@ -22,11 +26,11 @@ type Eff struct {
 }
 
 func newEff() *Eff {
-	return &Eff{regions: map[string]bool{}, assigned: map[*types.Var]bool{}, refVars: map[*types.Var]bool{}, refWrites: map[int]bool{}, reads: map[string]bool{}, globalsRead: map[string]bool{}}
+	return &Eff{ifaceVia: map[*FuncInfo]string{}, callees: map[*FuncInfo]bool{}, extCalls: map[string]bool{}, directGlobalWrites: map[string]bool{}, regions: map[string]bool{}, assigned: map[*types.Var]bool{}, refVars: map[*types.Var]bool{}, refWrites: map[int]bool{}, reads: map[string]bool{}, globalsRead: map[string]bool{}}
 }
 
 func (e *Eff) size() int {
-	return len(e.regions) + len(e.assigned) + len(e.refVars) + len(e.refWrites) + len(e.reads) + len(e.globalsRead)
+	return len(e.callees) + len(e.extCalls) + len(e.regions) + len(e.assigned) + len(e.refVars) + len(e.refWrites) + len(e.reads) + len(e.globalsRead)
 }
 
 func (e *Eff) addAll(o *Eff) {
@@ -485,6 +489,7 @@ func (w *effWalker) writeTarget(e ast.Expr) {
 		if v, ok := info.ObjectOf(e).(*types.Var); ok {
 			if v.Pkg() != nil && v.Parent() == v.Pkg().Scope() {
 				w.region("G$"+pkgShort(v.Pkg().Path())+"."+v.Name(), w.ef.tm.SortOf(v.Type()))
+				w.eff.directGlobalWrites["G$"+pkgShort(v.Pkg().Path())+"."+v.Name()] = true
 			} else {
 				w.eff.assigned[v] = true
 			}
@@ -619,8 +624,16 @@ func (w *effWalker) call(ce *ast.CallExpr) {
 	sig := callee.Type().(*types.Signature)
 	if recv != nil {
 		if _, isIface := types.Unalias(info.TypeOf(recv)).Underlying().(*types.Interface); isIface {
+			iname := ""
+			if n, ok := types.Unalias(info.TypeOf(recv)).(*types.Named); ok {
+				iname = n.Obj().Name()
+			}
 			for _, fi := range w.ef.implementations(callee) {
 				w.eff.addAll(w.ef.byFunc[fi])
+				if !w.eff.callees[fi] {
+					w.eff.ifaceVia[fi] = iname
+				}
+				w.eff.callees[fi] = true
 			}
 			return
 		}
@@ -628,6 +641,7 @@ func (w *effWalker) call(ce *ast.CallExpr) {
 	if fi, ok := w.ef.prog.ByObj[callee]; ok {
 		ce2 := w.ef.byFunc[fi]
 		w.eff.addAll(ce2)
+		w.eff.callees[fi] = true
 		// reference parameters
 		idx := 0
 		if sig.Recv() != nil {
@@ -657,6 +671,10 @@ func (w *effWalker) call(ce *ast.CallExpr) {
 		return
 	}
 	full := callee.Pkg().Path() + "." + callee.Name()
+	if r := sig.Recv(); r != nil {
+		full = callee.Pkg().Path() + "." + recvTypeName(r.Type()) + "." + callee.Name()
+	}
+	w.eff.extCalls[full] = true
 	argT := func(i int) types.Type {
 		if i < len(ce.Args) {
 			return info.TypeOf(ce.Args[i])
@@ -704,6 +722,40 @@ func (w *effWalker) unknownFunc(sig *types.Signature) {
 	for _, lr := range w.ef.litsBySig[sigKey(sig)] {
 		if le := w.ef.byLit[lr.lit]; le != nil {
 			w.eff.addAll(le)
+			for c := range le.callees {
+				w.eff.callees[c] = true
+			}
 		}
 	}
+}
+
+// Reachable returns the module functions reachable from root through the call graph (static calls, interface
+// implementations, closures by signature).
+func (ef *Effects) Reachable(root *FuncInfo, skipIface ...string) map[*FuncInfo]bool {
+	seen := map[*FuncInfo]bool{root: true}
+	work := []*FuncInfo{root}
+	for len(work) > 0 {
+		f := work[len(work)-1]
+		work = work[:len(work)-1]
+		e := ef.byFunc[f]
+		if e == nil {
+			continue
+		}
+		for c := range e.callees {
+			skip := false
+			for _, si := range skipIface {
+				if via, ok := e.ifaceVia[c]; ok && via == si {
+					skip = true
+				}
+			}
+			if skip {
+				continue
+			}
+			if !seen[c] {
+				seen[c] = true
+				work = append(work, c)
+			}
+		}
+	}
+	return seen
 }
